@@ -376,7 +376,8 @@ Section Instr2.
     destruct (rd (q_st s) (e_reg r)) as [q|] eqn:Eq; [|exfalso; eapply Hnf; reflexivity].
     destruct (q <? 0); [congruence|].
     destruct (Zlen (um (q_st s)) <=? q); [exfalso; eapply Hnf; reflexivity|].
-    destruct (nth_error (um (q_st s)) (Z.to_nat q)) as [[|]|]; try (exfalso; eapply Hnf; reflexivity).
+    destruct (nth_error (um (q_st s)) (Z.to_nat q)) as [[p0|]|]; try (exfalso; eapply Hnf; reflexivity).
+    destruct (least_unused (used (q_st s))) as [p|]; [|exfalso; eapply Hnf; reflexivity].
     cbn [nstep_bridge]. nnext pc. rewrite Eq. cbn [app].
     split; [exact Rr|]. split; [exact Ra|]. split; [exact Rs|]. rewrite rev_map_snoc, Rt. reflexivity.
   Qed.
@@ -390,7 +391,8 @@ Section Instr2.
     destruct (rd (q_st s) (e_reg r)) as [q|] eqn:Eq; [|exfalso; eapply Hnf; reflexivity].
     destruct (q <? 0); [congruence|].
     destruct (Zlen (um (q_st s)) <=? q); [exfalso; eapply Hnf; reflexivity|].
-    destruct (nth_error (um (q_st s)) (Z.to_nat q)) as [[|]|]; try (exfalso; eapply Hnf; reflexivity).
+    destruct (nth_error (um (q_st s)) (Z.to_nat q)) as [[p0|]|]; try (exfalso; eapply Hnf; reflexivity).
+    destruct (set_mem p0 (used (q_st s))); [|exfalso; eapply Hnf; reflexivity].
     cbn [nstep_bridge]. nnext pc. rewrite Eq. cbn [app].
     split; [exact Rr|]. split; [exact Ra|]. split; [exact Rs|]. rewrite rev_map_snoc, Rt. reflexivity.
   Qed.
